@@ -2,7 +2,7 @@
 from . import core
 
 CFG40V = 'CONSTANTS\n Mode = "views"\n Stripe = 1\n Phase = 0\nINIT Init\nNEXT Next\nINVARIANTS ViewInRange EmitView\nCHECK_DEADLOCK FALSE\n'
-CFG40C = 'CONSTANTS\n Mode = "classes"\n Stripe = 12\n Phase = %d\nINIT Init\nNEXT Next\nINVARIANTS ClassesOK\nCHECK_DEADLOCK FALSE\n'
+CFG40C = 'CONSTANTS\n Mode = "classes"\n Stripe = 144\n Phase = %d\nINIT Init\nNEXT Next\nINVARIANTS ClassesOK\nCHECK_DEADLOCK FALSE\n'
 CFG3X = 'INIT Init\nNEXT Next\nINVARIANTS InRange RoundupsAgree MissCap TempBelow Emit\nCHECK_DEADLOCK FALSE\n'
 CFG20 = 'INIT Init\nNEXT Next\nINVARIANTS InRange BaseNonNeg SetsSmall Emit\nCHECK_DEADLOCK FALSE\n'
 
@@ -56,7 +56,10 @@ def score_check(ctx):
             run('lift40', r['out'], 'v4 severity steps on realisations, after scoring a neighbour', n=K)
         if thorough and pid in ('C04', 'C12'):
             # the monolithic definition on all classes = the composed tables; monotone along every severity step
-            ctx.tlc('MC_Score40', CFG40C % ctx.seed, name='MC_Score40_classes', timeout=7000)
+            # 16 single-worker TLC processes, 3 outer tuples (104,976 classes) each: a seeded 1/9 of all classes
+            from concurrent.futures import ThreadPoolExecutor
+            with ThreadPoolExecutor(max_workers=16) as ex:
+                list(ex.map(lambda j: ctx.tlc('MC_Score40', CFG40C % (ctx.seed * 16 + j), name='MC_Score40_classes_%d' % j, workers=1, timeout=7000), range(16)))
     if pid in ('C03', 'C10', 'C11', 'C12'):
         r = tlc3x(ctx)
         if pid in ('C03', 'C11', 'C12'):
